@@ -144,7 +144,23 @@ def rule_traversals(ctx):
             rec_calls = [c for c in rec_calls if c.get('k') in ('call', 'mcall')]
             if not rec_calls:
                 continue
-            # ---- VISITED-DISCIPLINE ------------------------------------------------------------
+            # ---- VISITED-DISCIPLINE: the visited set lives outside the recursion -------------------
+            for rc in rec_calls:
+                for a in ([rc['recv']] if rc['k'] == 'mcall' else []) + rc['args']:
+                    aty = a.get('ty', '') + a.get('aty', '')
+                    if not any(x in aty for x in ('BTreeSet', 'HashSet')):
+                        continue
+                    root = a
+                    while root.get('k') in ('ref', 'wrap', 'unary'):
+                        root = root.get('e')
+                    if root.get('k') == 'path' and root['res'].get('r') == 'local':
+                        srcs = fn.binds.get(root['res']['hid'], [])
+                        fresh = [s_ for s_ in srcs if s_[0] == 'expr' and s_[1].get('k') in ('call', 'mcall') and
+                                 any(p_.endswith(('::new', '::default', '::with_capacity')) for p_ in H.callee_paths(s_[1]))]
+                        if fresh:
+                            obs.append(bad('VISITED-DISCIPLINE', '%s/fresh-set' % short(fn.path),
+                                           'a function on the recursive cycle creates the visited set it passes on: every level starts with an empty set', rc.get('sp', ''),
+                                           'the guard never fires across levels: a cycle recurses until the stack overflows'))
             for n in H.calls_in(fn):
                 if n['k'] == 'mcall' and n['method'] == 'insert' and any(x in (n['recv'].get('ty', '') + n['recv'].get('aty', '')) for x in ('BTreeSet', 'HashSet')):
                     # is the set a parameter (a visited set threaded through the recursion)?
@@ -467,4 +483,70 @@ def rule_attr_scanner(ctx):
             else:
                 obs.append(bad('VALUE-PARSE', inst, 'attribute values are not obtained by parsing the literal (transforms %s, LitStr::value sites %d)' % (sorted(xf), len(vals)), fn.loc,
                                'raw strings and escapes in #[graphql(..)] values reach the option altered'))
+    return obs
+
+
+@rule('REP-FRESH')
+def rule_rep_fresh(ctx):
+    """a collection interpolated into a template that is rendered once per element (inside a loop / iterator closure)
+    is rebuilt for every element: it is not a buffer declared outside the loop and appended to inside it"""
+    obs = []
+    n_sites = 0
+    from .rules_hir5 import pat_hids
+    for fn in ctx.crate('codegen').all_fns():
+        if fn.from_macro or not norm_path(fn.path).startswith('graphql_client_codegen::codegen'):
+            continue
+        lets = {}
+        for st in fn.walk(lambda x: x['k'] == 'let'):
+            for h in pat_hids(st['pat']):
+                lets[h] = st
+        for q in fn.walk(lambda x: x['k'] == 'macro' and x['name'].split('::')[-1] in ('quote', 'quote_spanned')):
+            scope = None
+            for parent, role, child in fn.ancestors(q):
+                if parent.get('k') == 'for' and role == 'body':
+                    scope = parent
+                    break
+                if parent.get('k') == 'closure':
+                    pr = fn.parent.get(id(parent))
+                    while pr and pr[0] is not None and pr[0].get('k') in ('wrap', 'ref'):
+                        pr = fn.parent.get(id(pr[0]))
+                    if pr and pr[0] is not None and pr[0].get('k') == 'mcall' and pr[0]['method'] in H.ITER_CONSUMERS:
+                        scope = parent
+                    break
+            if scope is None:
+                continue
+            inside = {id(x) for x in walk(scope)}
+            seen = set()
+            for a in q['args']:
+                if a.get('how') != 'outer-local' or a['hid'] in seen:
+                    continue
+                seen.add(a['hid'])
+                # follow `let x = &y;` to the collection itself
+                h = a['hid']
+                hops = 0
+                while hops < 4:
+                    hops += 1
+                    srcs = fn.binds.get(h, [])
+                    if len(srcs) == 1 and srcs[0][0] == 'expr':
+                        e_ = srcs[0][1]
+                        while e_.get('k') in ('ref', 'wrap'):
+                            e_ = e_['e']
+                        if e_.get('k') == 'path' and e_['res'].get('r') == 'local':
+                            h = e_['res']['hid']
+                            continue
+                    break
+                decl = lets.get(h)
+                if decl is None or id(decl) in inside:
+                    continue
+                muts = [s_ for s_ in fn.binds.get(h, []) if s_[0] == 'mut' and id(s_[3]) in inside and s_[1] in ('push', 'extend', 'insert', 'push_str', 'append', 'extend_from_slice')]
+                n_sites += 1
+                inst = '%s/%s' % (short(fn.path), a.get('name', '?'))
+                if muts:
+                    obs.append(bad('REP-FRESH', inst, '`%s` is declared outside the per-element closure/loop and appended to (%s) inside it, then interpolated into the per-element template' %
+                                   (a.get('name', '?'), sorted({s_[1] for s_ in muts})), q.get('sp', ''),
+                                   'from the second element on, the template receives the data of the earlier elements as well (positions no longer line up)'))
+                else:
+                    obs.append(ok('REP-FRESH', inst, 'outer value read only (not accumulated across elements)', q.get('sp', '')))
+    if n_sites < 1:
+        obs.append(ok('REP-FRESH', 'none', 'no per-element template interpolates an outer collection', ''))
     return obs
